@@ -628,9 +628,13 @@ class RxBanana(storage.StorageBanana):
             ready_deferred.addBoth(lambda r, slot=slot: slot.__setitem__(1, True))
 
 
-def receive(data, cuts, vocab=None, tolerate_abort=False):
-    """feed `data` split at the offsets `cuts`; -> ("ok", [objects]) | ("exc"|"violation"|"pending", text)"""
+def receive(data, cuts, vocab=None, tolerate_abort=False, written=None):
+    """feed `data` split at the offsets `cuts`; -> ("ok", [objects]) | ("exc"|"violation"|"pending", text).
+    written: a bytearray that collects what the receiver writes to its transport (the PONG answers to PING tokens)"""
     b = RxBanana()
+    if written is not None:
+        b.transport = CaptureTransport()
+        b.transport.out = written
     b.connectionMade()
     if vocab is not None:
         b.populateVocabTable(list(vocab))
@@ -662,6 +666,131 @@ def chunkings(rng, n, how):
         k = rng.randrange(1, 12)
         return sorted(set(rng.randrange(1, max(2, n)) for _ in range(k)))
     raise ValueError(how)
+
+
+# ------------------------------------------------------------------ keepalive tokens inside the stream
+# With keepalives enabled Banana.keepaliveTimerFired writes a PING token into the byte stream that carries the objects and
+# the peer answers with a PONG token, at whatever token boundary the stream happens to be.  These tokens are not part of
+# any object: the graph that arrives must not depend on them, nor on how they are packed together with their neighbours.
+def token_bounds(data):
+    """offsets at which the tokens of a clean Banana byte stream start, plus len(data); with the type byte of each token
+    (independent scanner: header bytes < 0x80, type byte, body of STRING / LONGINT / LONGNEG / ERROR / FLOAT)"""
+    bounds, types, pos, n = [0], [], 0, len(data)
+    while pos < n:
+        hdr = sh = 0
+        while data[pos] < 0x80:
+            hdr |= data[pos] << sh
+            sh += 7
+            pos += 1
+        ty = data[pos]
+        pos += 1
+        if ty in (0x82, 0x85, 0x86, 0x8d):
+            pos += hdr
+        elif ty == 0x84:
+            pos += 8
+        if pos > n:
+            raise ValueError("truncated token")
+        types.append(ty)
+        bounds.append(pos)
+    return bounds, types
+
+
+def ka_token(kind, number):
+    """the bytes the real writers Banana.sendPING / sendPONG put on the wire"""
+    b = banana_mod.Banana()
+    b.transport = CaptureTransport()
+    (b.sendPING if kind == "ping" else b.sendPONG)(number)
+    return bytes(b.transport.out)
+
+
+def ka_splice(data, inserts):
+    """inserts: [(offset into data, keepalive token bytes)] (several at one offset allowed, kept in order)
+    -> (stream, [(start, end) of every keepalive token in the stream])"""
+    out, spans, pos = bytearray(), [], 0
+    for off, kb in sorted(inserts, key=lambda x: x[0]):
+        out += data[pos:off]
+        pos = off
+        spans.append((len(out), len(out) + len(kb)))
+        out += kb
+    out += data[pos:]
+    return bytes(out), spans
+
+
+def ka_places(rng, data, ends, family):
+    """offsets (token boundaries of `data`) of one placement family.  ends: offsets at which a top-level object ends."""
+    bounds, types = token_bounds(data)
+    m = len(types)
+    if family == "front":
+        return [0]
+    if family == "end":
+        return [len(data)]
+    if family == "between-objects":
+        return [e for e in ends if e < len(data)] or [len(data)]
+    if family == "index-phase":            # between an OPEN token and its first index token
+        return [bounds[i + 1] for i in range(m) if types[i] == 0x88][:40]
+    if family == "after-index":            # right after the token that follows an OPEN
+        return [bounds[i + 2] for i in range(m - 1) if types[i] == 0x88][:40]
+    if family == "before-close":
+        return [bounds[i] for i in range(m) if types[i] == 0x89][:40]
+    if family == "after-body":             # behind tokens that carry a body (STRING / FLOAT / LONGINT / LONGNEG)
+        return [bounds[i + 1] for i in range(m) if types[i] in (0x82, 0x84, 0x85, 0x86)][:40]
+    if family == "every":
+        return bounds[:200]
+    if family == "burst":                  # several keepalive tokens in a row at one place
+        return [bounds[(m // 2)]] * 5
+    if family == "random":
+        return sorted(rng.choice(bounds) for _ in range(rng.choice([1, 1, 2, 3, 6])))
+    raise ValueError(family)
+
+
+KA_FAMILIES = ["front", "between-objects", "index-phase", "after-index", "before-close", "after-body", "every", "burst", "end"]
+KA_KINDS = [("ping", 0), ("pong", 0), ("ping", 7), ("pong", 300), ("ping", 2 ** 62), ("ping", 128), ("pong", 2 ** 21 - 1)]
+KA_CHUNKINGS = ["one", "alone", "glued-1", "glued-10", "glued-63", "glued-64", "glued-65", "glued-100", "tail", "bytewise", "random"]
+
+
+def ka_chunkings(rng, n, spans, how):
+    """cut offsets for a stream with keepalive tokens at `spans`: `alone` = every keepalive token in a packet of its own;
+    `glued-k` = a packet starts at every keepalive token and carries the k bytes behind it as well; `tail` = every keepalive
+    token is the last thing in its packet"""
+    if how in ("one", "bytewise", "random"):
+        return chunkings(rng, n, how)
+    cuts = set()
+    for s_, e in spans:
+        if how == "alone":
+            cuts.update((s_, e))
+        elif how == "tail":
+            cuts.add(e)
+        else:
+            cuts.update((s_, e + int(how.split("-")[1])))
+    return sorted(c for c in cuts if 0 < c < n)
+
+
+def strip_ka_bytes(stream):
+    """the stream without its PING / PONG tokens"""
+    bounds, types = token_bounds(stream)
+    return b"".join(stream[bounds[i]:bounds[i + 1]] for i in range(len(types)) if types[i] not in (0x8e, 0x8f))
+
+
+def expected_pongs(stream):
+    """the PONG tokens a receiver owes for the PING tokens of `stream` (same numbers, same order), as bytes"""
+    out = bytearray()
+    pos, n = 0, len(stream)
+    while pos < n:
+        start = pos
+        hdr = sh = 0
+        while stream[pos] < 0x80:
+            hdr |= stream[pos] << sh
+            sh += 7
+            pos += 1
+        ty = stream[pos]
+        pos += 1
+        if ty in (0x82, 0x85, 0x86, 0x8d):
+            pos += hdr
+        elif ty == 0x84:
+            pos += 8
+        elif ty == 0x8e:
+            out += stream[start:pos - 1] + b"\x8f"
+    return bytes(out)
 
 
 # ------------------------------------------------------------------ matcher: canonical term vs received graph
@@ -1128,13 +1257,14 @@ class StrictTarget(Referenceable):
 class Pair:
     """two Brokers whose transports only accumulate; bytes are moved by the test, in chosen chunks"""
 
-    def __init__(self, vocab_index=None):
+    def __init__(self, vocab_index=None, keepalive=None):
         E.reset_clock()
         params = {}
         if vocab_index:
             params = {"initial-vocab-table-index": vocab_index}
-        self.callee = broker_mod.Broker(TubRef("callee"), params)
-        self.caller = broker_mod.Broker(TubRef("caller"), params)
+        # keepalive: Tub.setOption("keepaliveTimeout", seconds) -- an idle connection gets PING tokens from keepaliveTimerFired
+        self.callee = broker_mod.Broker(TubRef("callee"), params, keepaliveTimeout=keepalive)
+        self.caller = broker_mod.Broker(TubRef("caller"), params, keepaliveTimeout=keepalive)
         self.t_callee, self.t_caller = CaptureTransport(), CaptureTransport()
         self.callee.transport, self.caller.transport = self.t_callee, self.t_caller
         self.callee.connectionMade()
